@@ -46,7 +46,7 @@ def plan(tier, seed):
                 o['wca'] = pick(scen.WCA['plain_lead'] + [-2] * 0)
             else:
                 o['wca'] = pick(scen.WCA['plain_nolead'])
-            o['saliency'] = pick(['none', 'pos', 'wide', 'wide', 'int'])
+            o['saliency'] = pick(['none', 'pos', 'wide', 'wide', 'int', 'tiny'] + (['tiny'] * 2 if kind == 'cwmm' else []))
             o['saliency_slice_scale'] = bool(rng.integers(0, 2))
             tied = bool(lead) and -3 in o['wca']
             if tied and rng.uniform() < 0.6:
@@ -66,7 +66,9 @@ def plan(tier, seed):
                 iters = 15 if r % 3 else 25
             if tied and o['saliency_slice_scale'] == 'all':
                 iters = max(iters, 20)
-            cases.append(dict(kind=kind, cls='gauss', K=K, N=N, D=D, lead=lead, spread=float(pick([0.5, 1.0, 1.5, 3.0])), offset=float(pick([0, 0, 1e4, 3e6])) if kind in ('gmm', 'gcacgmm') else 0.0, layout=pick(['c', 'c', 'f', 'tview']), init=pick(['dirichlet:1', 'dirichlet:10', 'blur:0.5', 'dirichlet:0.3']),
+            if o['saliency'] == 'tiny':
+                iters = max(iters, 25)      # class masses have to cross the library's absolute guards (1e-10) on the way
+            cases.append(dict(kind=kind, cls=pick(['gauss', 'gauss', 'gauss', 'outlier']) if kind in ('gmm', 'gcacgmm') else 'gauss', K=K, N=N, D=D, lead=lead, spread=float(pick([0.5, 1.0, 1.5, 3.0])), offset=float(pick([0, 0, 1e4, 3e6])) if kind in ('gmm', 'gcacgmm') else 0.0, layout=pick(['c', 'c', 'f', 'tview']), init=pick(['dirichlet:1', 'dirichlet:10', 'blur:0.5', 'dirichlet:0.3']),
                               iters=iters, opts=o, rs=[seed, 2, i]))
             i += 1
     return cases
@@ -151,13 +153,15 @@ def run_case(case, R):
                     raise
                 Ls.append(float('nan'))
             guards.append(guard_state(s, e['model'], e))
-    absL = max(1.0, abs(Ls[0]))
     Ntot = int(np.prod(s.lead, dtype=int)) * s.N
+    # the likelihood is weighted by the saliency: its natural scale is the total saliency mass (= number of observations without one)
+    mass = float(np.sum(s.saliency)) if s.saliency is not None else float(Ntot)
+    absL = max(min(1.0, mass), abs(Ls[0]))
     tol = 1e-9 * absL
     if s.kind == 'cwmm':
-        tol += 1e-6 * Ntot
+        tol += 1e-6 * min(Ntot, mass)
     if s.copts.get('affiliation_eps'):
-        tol += 1e-7 * s.K * Ntot
+        tol += 1e-7 * s.K * min(Ntot, mass)
     free = 0
     worst = 0.0
     for i in range(n):
@@ -168,12 +172,12 @@ def run_case(case, R):
             drop = Ls[i - 1] - Ls[i]
             worst = max(worst, drop)
             R.check('C02.monotone', drop <= tol, f'decrease/{s.kind}',
-                    f'{s.kind}: log-likelihood fell from {Ls[i-1]:.9f} to {Ls[i]:.9f} at iteration {i} (tol {tol:.2e})',
+                    f'{s.kind}: log-likelihood fell from {Ls[i-1]:.12g} to {Ls[i]:.12g} at iteration {i} (tol {tol:.2e})',
                     iteration=i, drop=drop, tol=tol, opts=case['opts'])
     if free < n:
         R.undecided('C02.monotone', 'guard active: ' + ','.join(guards[free]) if free < len(guards) and guards[free] else 'non-finite L')
         R.count('iterations after a guard became active (not judged)', n - free)
-    if free >= 3 and Ls[free - 1] - Ls[0] > 1e-6 * Ntot:
+    if free >= 3 and Ls[free - 1] - Ls[0] > 1e-6 * min(Ntot, mass):
         R.mark_nontrivial(s.kind, case['opts'], s.K, s.D, case['lead'])
     R.sample(dict(kind=s.kind, opts=case['opts'], K=s.K, D=s.D, N=s.N, lead=case['lead'], iterations=n, guard_free=free,
                   L_first=Ls[0], L_last=Ls[free - 1] if free else None, worst_drop=worst))
